@@ -139,7 +139,13 @@ re-initialised; only those addressed to everybody or to this node -/
 def replayed (self dkgId : String) (im : InnerMsg) : Bool :=
   im.msg.round == dkgId && (im.msg.recipient == "" || im.msg.recipient == self)
 
-def beforeSigning (inner : List InnerMsg) : List InnerMsg := inner.takeWhile (fun im => im.msg.event != "event_signing_start")
+/-- `types.IsSigningPhaseEvent` -/
+def signingPhaseEvent (e : String) : Bool :=
+  e.startsWith "event_signing_" || e == "signature_reconstructed" || e == "signature_reconstruction_failed"
+
+/-- the messages a re-initialisation replays: those of the signing phase are skipped wherever they stand (until fix
+`c405ec9` the list was CUT at the first `event_signing_start`: known finding C20-early-signing-proposal, now repaired) -/
+def beforeSigning (inner : List InnerMsg) : List InnerMsg := inner.filter (fun im => !signingPhaseEvent im.msg.event)
 
 /-- one replayed message: verification as configured, except for the unsigned 0.1.4 patches; the operation it gives
 rise to is collected, not stored; a rejected message changes nothing and is skipped -/
